@@ -157,6 +157,59 @@ def derive_K(F, base, rng, n, quals=None, files=WORKER_FILES, actions=KILL_ACTIO
     return out
 
 
+def rel_of_source(relpath, qual, needle, nth=1):
+    """rel (line - co_firstlineno) of the nth line containing `needle` inside function `qual` (dotted for methods) of
+    a file of the tree under test; None when not found (the tree was changed)."""
+    import ast
+    import os
+
+    from . import common
+
+    try:
+        src = open(os.path.join(common.REPO, "loky", relpath)).read()
+        tree = ast.parse(src)
+    except (OSError, SyntaxError):
+        return None
+    lines = src.splitlines()
+    node = tree
+    for name in qual.split("."):
+        nxt = None
+        for n in ast.walk(node):
+            if isinstance(n, (ast.FunctionDef, ast.ClassDef, ast.AsyncFunctionDef)) and n.name == name and n is not node:
+                nxt = n
+                break
+        if nxt is None:
+            return None
+        node = nxt
+    first = min([node.lineno] + [d.lineno for d in node.decorator_list])
+    k = 0
+    for ln in range(node.lineno, node.end_lineno + 1):
+        if needle in lines[ln - 1]:
+            k += 1
+            if k == nth:
+                return ln - first
+    return None
+
+
+def derive_LK(F, base, rng, n, quals=None, files=WORKER_FILES, linger=(0.3, 0.6), actions=KILL_ACTIONS, which=("first", "second", "last")):
+    """Linger-then-die: a worker stays `linger` seconds at a statement (holding whatever it holds there: a queue lock, the
+    management lock, a half-sent announcement) while the rest of the pool goes on, and dies at that very statement."""
+    out = []
+    workers = sorted({p["proc"] for p in points_of(F, role="worker") if p["proc"]})
+    if not workers:
+        return out
+    for _ in range(n):
+        w = rng.choice(workers)
+        pts = points_of(F, role="worker", proc=w, files=files, quals=quals)
+        if not pts:
+            continue
+        pt = rng.choice(stratified_sample(pts, 6, rng))
+        h = (hits_for(pt, rng, which=(rng.choice(which),)) or [1])[0]
+        act = rng.choice(actions)
+        out.append(({"rules": [rule(pt, ["sleep", rng.choice(linger)], hit=h), rule(pt, act, hit=h)]}, {"mode": "LK", "fn": pt["qual"], "act": act[0] + str(act[1])}))
+    return out
+
+
 def derive_WD(F, base, rng, n, quals=None, delay=None):
     """Delay inside a worker (e.g. between its time-out decision and its announcement)."""
     out = []
